@@ -95,6 +95,39 @@ Proof.
       assert (a * (pos c1 - pos c) <= (a + (k + 1)) * (pos c1 - pos c)) by (apply N.mul_le_mono_r; lia). lia.
 Qed.
 
+(* the same with the constant spread over the d >= 1 bytes each iteration consumes *)
+Lemma post_absorb_q {A} a k d q c l (x : A) c' l' :
+  post a k d c l (Ok x) c' l' -> k <= q * d -> post (a + q) 0 d c l (Ok x) c' l'.
+Proof.
+  intros [P1 P2 P3 P4 P5 P6 P7 P8 P9 P10] Hq. specialize (P6 eq_refl). constructor; try assumption.
+  - intros _. exact P6.
+  - rewrite N.mul_add_distr_r.
+    assert (q * d <= q * (pos c' - pos c)) by (apply N.mul_le_mono_l; lia). lia.
+Qed.
+
+Lemma ok_repeat_q {A} a k d q (body : A -> M A) :
+  (forall x, ok a k d (body x)) -> k + 1 <= q * d ->
+  forall count x, ok (a + q) (k + 1) 0 (repeat_m count body x).
+Proof.
+  intros Hb Hq. induction count as [|n IH]; intros x c l Hc Hl; cbn [repeat_m].
+  - cbn. constructor; cbn; try assumption; try apply same_refl; try exact I; try lia.
+  - unfold bind at 1. cbn [tick tick_n]. unfold bind at 1.
+    set (l0 := mkLog (ticks l + 1) (hops l) (names l)).
+    assert (Hl0 : names_ok l0) by exact Hl.
+    pose proof (Hb x c l0 Hc Hl0) as B. destruct (body x c l0) as [[r c1] l1].
+    destruct r as [x'|flt].
+    + assert (P1 : post a (k + 1) d c l (Ok x') c1 l1).
+      { destruct B as [P1 P2 P3 P4 P5 P6 P7 P8 P9 P10]. constructor; try assumption. cbn [ticks hops l0] in *. lia. }
+      apply (post_absorb_q _ _ _ q) in P1; [|exact Hq].
+      pose proof (p_wf _ _ _ _ _ _ _ _ P1) as Hw1. pose proof (p_names _ _ _ _ _ _ _ _ P1) as Hn1.
+      specialize (IH x' c1 l1 Hw1 Hn1). destruct (repeat_m n body x' c1 l1) as [[r2 c2] l2].
+      pose proof (post_seq _ _ _ _ _ _ _ _ _ _ _ _ _ P1 IH) as P.
+      refine (post_weaken _ _ _ _ _ _ _ _ _ _ _ P _ _ _); lia.
+    + destruct B as [P1 P2 P3 P4 P5 P6 P7 P8 P9 P10]. cbn [ticks hops names l0] in *.
+      constructor; try assumption; try (cbn; discriminate).
+      assert (a * (pos c1 - pos c) <= (a + q) * (pos c1 - pos c)) by (apply N.mul_le_mono_r; lia). lia.
+Qed.
+
 (* bind where the first step's constant is absorbed by the slope on success *)
 Lemma ok_bind_abs {A B} a0 a k1 d1 k2 d2 (m : M A) (f : A -> M B) :
   ok a0 k1 d1 m -> a0 + k1 <= a -> 1 <= d1 -> k1 <= k2 ->
